@@ -222,7 +222,8 @@ class CellCycleController:
         lock = ctx.acquired_resources[resource_id]
         released = lock.release(owner=ctx.operation_id)
 
-        if released:
+        if released and lock.owner != ctx.operation_id:
+            # Fully released (re-entrant holds need one release per acquisition)
             del ctx.acquired_resources[resource_id]
             self.dependency_graph.remove_all_for_agent(ctx.operation_id)
 
@@ -231,6 +232,9 @@ class CellCycleController:
     def release_all_resources(self, ctx: OperationContext) -> None:
         """Release all resources held by an operation."""
         for resource_id in list(ctx.acquired_resources.keys()):
+            lock = ctx.acquired_resources[resource_id]
+            while lock.owner == ctx.operation_id and lock.hold_count > 1:
+                lock.release(owner=ctx.operation_id)
             self.release_resource(ctx, resource_id)
 
     def check_deadlock(self) -> Optional[DeadlockInfo]:
